@@ -425,5 +425,6 @@ func extractC06() *lean {
 	}
 	l.def("addSingleConds", "List String", leanStrList(asc), asc)
 	l.def("dagAddConds", "List String", leanStrList(adc), adc)
+	extractC06Deep(l, pf, df)
 	return l
 }
